@@ -21,8 +21,16 @@ def run(tier, seed):
                 'undisturbed run, iterative initialisation (solve_iter_single)')
     run_contracts(pack, [(T.test_init('C05'), None, T.replay_test_init), (T.tds_init('C05'),)])
     from contracts import fn_handover as H
-    run_contracts(pack, [(H.genbase_v_numeric('C05'), None, H.replay_genbase_v_numeric)])
+    run_contracts(pack, [(H.genbase_v_numeric('C05'), None, H.replay_genbase_v_numeric), (H.solve_iter_c('C05'), None, H.replay_solve_iter)])
     C18.run(tier, seed, prefix='C05', want=('SS',), pack=pack)
     from contracts import fn_handover as H2
     H2.bounded_flat_run(pack, 'C05', tier)
+    from contracts.packutil import native_guard
+    name = 'C05/andes/core/model/model.py:Model.init;solve_iter/bounded:iteratively-initialised-exciters-with-an-offline-device-initialise-with-zero-residuals'
+    r = native_guard(pack, name, H2.replay_solve_iter)
+    if r is not None:
+        pack.bounded.append({'function': 'TDS.init with EXAC1 / ESAC1A / AC8B, first exciter offline and online (end to end)', 'cases': r.get('tried', 0),
+                             'kind': 'bounded native: ieee14_exac1, ieee14_esac1a, ieee14_ac8b', 'counted_as_proved': False})
+        if r.get('confirmed'):
+            pack.violation(name, {'bounded': True, 'inputs': r.get('inputs'), 'observed': r.get('observed'), 'native_cmd': r.get('native_cmd')})
     return pack.finish()
